@@ -22,6 +22,7 @@ CONSTANTS
   MaxPos = 2
   MaxKw = 1
   BugRuntimeIgnoresKwDefaults = TRUE
+  BugStringDropsAllowUnpack = FALSE
   FixedDunder = FALSE
 INVARIANT HeaderViewsAgree
 CHECK_DEADLOCK FALSE
